@@ -215,6 +215,21 @@ func (p *StutterReader) Read(b []byte) (int, error) {
 	return k, nil
 }
 
+// EOFReaderAt is a legal io.ReaderAt that reports io.EOF together with a full read that ends
+// exactly at the end of the data (the contract allows either err == EOF or err == nil there).
+type EOFReaderAt struct{ B []byte }
+
+func (e EOFReaderAt) ReadAt(p []byte, off int64) (int, error) {
+	if off < 0 || off >= int64(len(e.B)) {
+		return 0, io.EOF
+	}
+	n := copy(p, e.B[off:])
+	if off+int64(n) == int64(len(e.B)) {
+		return n, io.EOF
+	}
+	return n, nil
+}
+
 // CountingReader counts bytes delivered and calls.
 type CountingReader struct {
 	R     io.Reader
